@@ -49,7 +49,7 @@ class World(object):
         cfg_ = gamma.Config.draw(rng, ndims=3, payload="tame")
         sgn = (sc["origin"] > 0) - (sc["origin"] < 0)
         cfg_.origin = tuple(0.0 if sgn == 0 else sgn * abs(rng.choice([0.3, 1.1, 2.0, 0.05, 7.7])) for _ in range(3))
-        lat = lattice.Lattice(sc["mesh"], sc["n1"], sc["n2"], axes=axes, ext0=3, ext_cut=False)
+        lat = lattice.Lattice(sc["mesh"], sc["n1"], sc["n2"], axes=axes, ext0=[3, 4, 5][cfgseed % 3], ext_cut=(cfgseed // 3) % 2 == 1)
         ap = lat.ap("A", FIELDS, files_of=lambda lv, b: rng.randint(1, 2), shuffle=lambda lv, f, v: rng.sample(v, len(v)))
         flds = lattice.Fields(lat, cfgseed, payload="tame")
         d = os.path.join(self.chk.tmp(), "p")
@@ -73,7 +73,15 @@ def run_scenario(chk, world, sc, cfgseed, axes, sel):
         l = q["lev"]
         dx = gamma.level_dx(cfg_, 3, l)
         ne = lat.level_shape(l)[a3]
-        kz = 1 + (cfgseed + qi) % (ne - 2)
+        # along the extruded axis: a cell at least one cell away from the faces of its box (the domain faces, and the cut
+        # between the two slabs when the boxes are cut there)
+        inner = [k for k in range(1, ne - 1)]
+        if lat.ext_cut and ne >= 2:
+            cut = max(1, (ne // 2) - (ne // 2) % 2) if ne >= 4 else 1
+            inner = [k for k in inner if k not in (cut - 1, cut)]
+        if not inner:
+            continue
+        kz = inner[(cfgseed + qi) % len(inner)]
         idx = [0, 0, 0]
         idx[a1], idx[a2], idx[a3] = q["cell"][0], q["cell"][1], kz
         point = [cfg_.origin[d] + dx[d] * (idx[d] + 0.5) for d in range(3)]
